@@ -28,7 +28,23 @@ const S1_STUB: &[&str] = &[
 ];
 const S1_BOUNDS: &str = "<= 60 states (65536 for counter-tail timeout models), out-degree <= 5, <= 3 initial states, <= 5 properties, 1-4 worker threads, block size in {1,2,3,5,8,64,1500}";
 
+const S2_REAL: &[&str] = &[
+    "stateright ActorModel::init_states/actions/next_state/process_commands",
+    "Network (all three kinds), Timers, RandomChoices, ActorModelState (Hash/Eq/Representative), Envelope",
+    "history hooks record_msg_in/record_msg_out, lossy_network, max_crashes",
+];
+const S2_STUB: &[&str] = &[
+    "the actors (table-driven script actors generated from the run seed)",
+    "the choice of which enabled action happens next (seeded, fault-biased walker) - no threads or clocks are involved in the actor model",
+];
+const S2_BOUNDS: &str = "1-4 actors, <= 4 local states, <= 4 message tags, <= 3 timers, <= 3 random values, walks <= 80 steps, crash budget 0-2, history capped at 24 events";
+
 pub const PROPS: &[PropInfo] = &[
+    PropInfo { id: "C04", subsystem: "s2", runs: (20_000, 2_000_000), rule: "one case = one seeded fault-heavy walk of a generated actor system; every reached state, a perturbed rebuild of it (shuffled insertion order, other hasher keys, spare capacity, remove+reinsert) and its neighbours (crash flag flipped, timer/choice moved to the adjacent actor, message removed) enter a pool together with container families (sets/maps side by side, nested, Vec<Timers>, VectorClock with trailing zeros, DenseNatMap); distinct = distinct state fingerprints reached; non-trivial = walk of >= 2 steps", oracle: "equal canonical dump => equal fingerprint; different dump => different sequence of typed Hasher calls; == <=> equal dump", real: S2_REAL, stub: S2_STUB, bounds: S2_BOUNDS },
+    PropInfo { id: "C06", subsystem: "s2", runs: (20_000, 2_000_000), rule: "one case = one seeded walk (<= 80 steps) of a generated actor system in lockstep with the reference stepper; distinct = distinct state fingerprints reached; non-trivial = >= 2 steps taken", oracle: "at every step the set of effective (action, successor) pairs of the real model equals the reference's, component by component (actor state, network, timers, choices, crash flags, history order)", real: S2_REAL, stub: S2_STUB, bounds: S2_BOUNDS },
+    PropInfo { id: "C07", subsystem: "s2", runs: (20_000, 2_000_000), rule: "as C06 with traffic-heavy systems: repeated identical messages, several per flow, initial network contents, drops and redeliveries", oracle: "network content == reference flows/multiset/set after every step; deliverable set, drop offers, len(), iter_all() (bounded consumption) and iter_deliverable() agree with the content", real: S2_REAL, stub: S2_STUB, bounds: S2_BOUNDS },
+    PropInfo { id: "C09", subsystem: "s2", runs: (20_000, 2_000_000), rule: "as C06 with crash budget 1-2 and crashes biased to land right after a send to the victim, with timers armed and choices pending; plus real BFS/DFS runs on small actor systems compared with the reference reachable set", oracle: "crash offered <=> actor up and fewer than k down; crash clears timers/choices and sets the flag only; no step of a crashed actor is ever effective; deliveries to it leave the message in place; the checker visits exactly the reference's reachable dumps (crash configurations are distinct)", real: S2_REAL, stub: S2_STUB, bounds: S2_BOUNDS },
+    PropInfo { id: "C10", subsystem: "s2", runs: (20_000, 2_000_000), rule: "S2 half: every state reached by a seeded walk is passed to representative(); S1 half: DFS with and without symmetry on symmetric process models under the scheduler", oracle: "representative() == the state permuted (actor order, envelope endpoints, ids inside messages/history/local state, timers, crash flags, choices) by the stable argsort of the actor states, computed by harness code", real: S2_REAL, stub: S2_STUB, bounds: S2_BOUNDS },
     PropInfo { id: "C01", subsystem: "s1", runs: (6_000, 400_000), rule: "one case = one generated (graph model, checker configuration, schedule seed) executed by the real checker under the deterministic scheduler; distinct = distinct hash of the sequence of scheduling decisions and hook events; non-trivial = the run evaluated at least one state and took >= 30 scheduling steps (or > 2 context switches)", oracle: "visitor multiset == independent reachability set, each state once, visitor paths re-executed on the graph, unique_state_count == |reachable|, state_count >= unique", real: S1_REAL, stub: S1_STUB, bounds: S1_BOUNDS },
     PropInfo { id: "C02", subsystem: "s1", runs: (6_000, 400_000), rule: "as C01 with 1-5 always/sometimes(/eventually) properties labelled on the states", oracle: "discovery <=> witness exists in the independent reachable set; assert_properties/is_done agree", real: S1_REAL, stub: S1_STUB, bounds: S1_BOUNDS },
     PropInfo { id: "C03", subsystem: "s1", runs: (6_000, 400_000), rule: "as C01 over all five strategies, finish conditions, targets, depth limits, timeouts", oracle: "every path of discoveries() after join re-executed on the graph; last state witnesses; eventually paths never satisfy and are maximal (or close a cycle, simulation only)", real: S1_REAL, stub: S1_STUB, bounds: S1_BOUNDS },
@@ -45,6 +61,7 @@ pub fn info(prop: &str) -> Option<&'static PropInfo> {
 pub fn run_case(prop: &str, seed: u64) -> (RunReport, Value) {
     match info(prop).map(|i| i.subsystem) {
         Some("s1") => crate::s1::run_case(prop, seed),
+        Some("s2") => crate::s2::run_case(prop, seed),
         _ => panic!("unknown property {}", prop),
     }
 }
@@ -52,6 +69,7 @@ pub fn run_case(prop: &str, seed: u64) -> (RunReport, Value) {
 pub fn replay(prop: &str, scenario: &Value) -> Result<RunReport, String> {
     match info(prop).map(|i| i.subsystem) {
         Some("s1") => crate::s1::replay(prop, scenario),
+        Some("s2") => crate::s2::replay(prop, scenario),
         _ => Err(format!("unknown property {}", prop)),
     }
 }
@@ -59,6 +77,7 @@ pub fn replay(prop: &str, scenario: &Value) -> Result<RunReport, String> {
 pub fn summary(prop: &str, scenario: &Value) -> Value {
     match info(prop).map(|i| i.subsystem) {
         Some("s1") => crate::s1::summary(scenario),
+        Some("s2") => crate::s2::summary(scenario),
         _ => Value::Null,
     }
 }
@@ -66,6 +85,7 @@ pub fn summary(prop: &str, scenario: &Value) -> Value {
 pub fn shrink_candidates(prop: &str, scenario: &Value) -> Vec<Value> {
     match info(prop).map(|i| i.subsystem) {
         Some("s1") => crate::s1::shrink_candidates(scenario),
+        Some("s2") => crate::s2::shrink_candidates(scenario),
         _ => vec![],
     }
 }
